@@ -55,6 +55,11 @@ type spec struct {
 	crit bool
 	kids []*spec
 	n    int
+	// variants of a member (scenario "members"): the `critical` key left out (documented default: true),
+	// a task with a trigger (hook task), a role switched off with `enabled: "false"` (pruned by the loader)
+	critAbsent bool
+	hook       bool
+	disabled   bool
 }
 
 func T(crit bool) *spec          { return &spec{kind: kTask, crit: crit} }
@@ -63,6 +68,12 @@ func A(kids ...*spec) *spec      { return &spec{kind: kAgg, kids: kids} }
 func I(kids ...*spec) *spec      { return &spec{kind: kInc, kids: kids} }
 func It(n int, tmpl *spec) *spec { return &spec{kind: kIter, kids: []*spec{tmpl}, n: n} }
 
+// TD / CD: task / call without a `critical` key; H: hook task; Off: the same role with `enabled: "false"`.
+func TD() *spec         { return &spec{kind: kTask, crit: true, critAbsent: true} }
+func CD() *spec         { return &spec{kind: kCall, crit: true, critAbsent: true} }
+func H(crit bool) *spec { return &spec{kind: kTask, crit: crit, hook: true} }
+func Off(s *spec) *spec { c := *s; c.disabled = true; return &c }
+
 func (s *spec) String() string {
 	switch s.kind {
 	case kTask, kCall:
@@ -70,7 +81,17 @@ func (s *spec) String() string {
 		if s.crit {
 			c = "C"
 		}
-		return s.kind.String()[:1] + c
+		if s.critAbsent {
+			c = "D" // critical by default
+		}
+		o := s.kind.String()[:1] + c
+		if s.hook {
+			o = "h" + c
+		}
+		if s.disabled {
+			o = "off(" + o + ")"
+		}
+		return o
 	case kIter:
 		return fmt.Sprintf("for%d(%s)", s.n, s.kids[0])
 	}
@@ -82,6 +103,9 @@ func (s *spec) String() string {
 	if s.kind == kInc {
 		o = "inc"
 	}
+	if s.disabled {
+		o = "off-" + o
+	}
 	return o + "{" + strings.Join(p, " ") + "}"
 }
 
@@ -92,11 +116,23 @@ func emit(b *strings.Builder, s *spec, name, ind string, docs map[string]string,
 	if forLines != "" {
 		b.WriteString(strings.ReplaceAll(forLines, "@", ind))
 	}
+	if s.disabled {
+		fmt.Fprintf(b, "%s  enabled: \"false\"\n", ind)
+	}
 	switch s.kind {
 	case kTask:
-		fmt.Fprintf(b, "%s  task:\n%s    load: verifclass\n%s    critical: %v\n", ind, ind, ind, s.crit)
+		fmt.Fprintf(b, "%s  task:\n%s    load: verifclass\n", ind, ind)
+		if s.hook {
+			fmt.Fprintf(b, "%s    trigger: before_START_ACTIVITY\n", ind)
+		}
+		if !s.critAbsent {
+			fmt.Fprintf(b, "%s    critical: %v\n", ind, s.crit)
+		}
 	case kCall:
-		fmt.Fprintf(b, "%s  call:\n%s    func: testplugin.Noop()\n%s    trigger: CONFIGURE\n%s    critical: %v\n", ind, ind, ind, ind, s.crit)
+		fmt.Fprintf(b, "%s  call:\n%s    func: testplugin.Noop()\n%s    trigger: CONFIGURE\n", ind, ind, ind)
+		if !s.critAbsent {
+			fmt.Fprintf(b, "%s    critical: %v\n", ind, s.crit)
+		}
 	case kAgg:
 		fmt.Fprintf(b, "%s  roles:\n", ind)
 		emitKids(b, s, name, ind+"    ", docs)
@@ -159,21 +195,41 @@ type node struct {
 
 func (n *node) leaf() bool { return n.kind == kTask || n.kind == kCall }
 
+// expand gives the roles the loaded tree must consist of. A member with `enabled: "false"` is absent with
+// its whole subtree, an aggregator or include left without members is absent too, an iterator contributes
+// one copy of its template per element (none for an empty range); nil = absent.
 func expand(s *spec, name, base string) *node {
+	if s.disabled {
+		return nil
+	}
 	n := &node{name: name, kind: s.kind, crit: s.crit}
 	if n.leaf() {
 		n.leaves, n.hasCrit = 1, s.crit
 		return n
 	}
+	hasIterator := false
 	for i, k := range s.kids {
 		kn := baseName(base, i)
 		if k.kind == kIter {
 			for j := 0; j < k.n; j++ {
-				n.kids = append(n.kids, expand(k.kids[0], fmt.Sprintf("%sx%d", kn, j), kn))
+				if c := expand(k.kids[0], fmt.Sprintf("%sx%d", kn, j), kn); c != nil {
+					n.kids = append(n.kids, c)
+				}
 			}
+			hasIterator = true
 			continue
 		}
-		n.kids = append(n.kids, expand(k, kn, kn))
+		if c := expand(k, kn, kn); c != nil {
+			n.kids = append(n.kids, c)
+		}
+	}
+	if len(n.kids) == 0 {
+		if hasIterator {
+			// an aggregator whose only remaining members are iterators that yield nothing stays in the
+			// loaded tree (recorded C15 finding): such specs are not part of any family of this harness
+			panic(fmt.Sprintf("HARNESS: spec %s has an aggregator left with empty iterators only", s))
+		}
+		return nil
 	}
 	for _, c := range n.kids {
 		c.parent = n
@@ -428,9 +484,19 @@ type update struct {
 	status bool
 	st     sm.State
 	ss     task.Status
+	// hooks != 0: not a leaf update but the environment collecting hooks from the whole workflow, which
+	// makes every call role report a state of its own choosing: 1 = GetAllHooks() (deployment, teardown),
+	// 2 = GetHooksMapForTrigger("CONFIGURE") (every transition)
+	hooks int
 }
 
 func (u update) String() string {
+	switch u.hooks {
+	case 1:
+		return "root.GetAllHooks()"
+	case 2:
+		return "root.GetHooksMapForTrigger(CONFIGURE)"
+	}
 	if u.status {
 		return fmt.Sprintf("leaf%d.status=%s", u.leaf, u.ss)
 	}
@@ -438,6 +504,21 @@ func (u update) String() string {
 }
 
 func (t *tree) apply(u update) {
+	if u.hooks != 0 {
+		if u.hooks == 1 {
+			t.root.role.GetAllHooks()
+		} else {
+			t.root.role.GetHooksMapForTrigger("CONFIGURE")
+		}
+		// whatever state a call role reports now is the value the fold has to be taken over
+		// (tasks are not touched by this: their last fed value still stands)
+		for _, l := range t.leaves {
+			if l.kind == kCall {
+				l.st = l.role.GetState()
+			}
+		}
+		return
+	}
 	l := t.leaves[u.leaf]
 	if u.status {
 		l.ss = u.ss
@@ -535,6 +616,77 @@ var (
 	labels2        = []*spec{tC, tN}
 )
 
+// membersFamily: trees whose members come in the variants the other families leave out. Shapes
+// agg{a b}, agg{a b c}, agg{a agg{b c}}, agg{agg{a b} c}, agg{agg{a} b} with the slots filled from
+//
+//	plain:   critical task, non-critical task, critical call
+//	variant: task / call without a `critical` key (critical by default), hook task (critical or not),
+//	         a critical task / a non-critical task / an aggregator with a critical task switched off with
+//	         `enabled: "false"` (pruned), an aggregator emptied by pruning, iterators over 0, 1 and 3
+//	         elements (critical and non-critical template)
+//
+// with one or two variant members; every tree keeps a live leaf.
+func membersFamily(string) []*spec {
+	plain := []*spec{tC, tN, cC}
+	variants := []*spec{TD(), CD(), H(true), H(false), Off(tC), Off(tN), Off(A(tC, tN)), A(Off(tC)),
+		It(0, tC), It(1, tC), It(3, tC), It(0, tN), It(1, CD()), It(3, H(true))}
+	const maxVar = 2
+	shapes := []struct {
+		slots int
+		mk    func(m []*spec) *spec
+	}{
+		{2, func(m []*spec) *spec { return A(m[0], m[1]) }},
+		{3, func(m []*spec) *spec { return A(m[0], m[1], m[2]) }},
+		{3, func(m []*spec) *spec { return A(m[0], A(m[1], m[2])) }},
+		{3, func(m []*spec) *spec { return A(A(m[0], m[1]), m[2]) }},
+		{2, func(m []*spec) *spec { return A(A(m[0]), m[1]) }},
+	}
+	var out []*spec
+	for _, sh := range shapes {
+		opts := append(append([]*spec{}, plain...), variants...)
+		idx := make([]int, sh.slots)
+		for {
+			m := make([]*spec, sh.slots)
+			nv := 0
+			for i, k := range idx {
+				m[i] = opts[k]
+				if k >= len(plain) {
+					nv++
+				}
+			}
+			if nv >= 1 && nv <= maxVar {
+				if s := sh.mk(m); usable(s) {
+					out = append(out, s)
+				}
+			}
+			i := sh.slots - 1
+			for ; i >= 0; i-- {
+				idx[i]++
+				if idx[i] < len(opts) {
+					break
+				}
+				idx[i] = 0
+			}
+			if i < 0 {
+				break
+			}
+		}
+	}
+	return out
+}
+
+// usable: the tree keeps at least one live leaf and no aggregator is left with empty iterators only
+// (that aggregator stays in the loaded tree: recorded C15 finding, not C11's business).
+func usable(s *spec) (ok bool) {
+	defer func() {
+		if recover() != nil {
+			ok = false
+		}
+	}()
+	n := expand(s, "n", "n")
+	return n != nil && n.leaves >= 1
+}
+
 // ---------------------------------------------------------------- Direct: sequences
 
 type seqCfg struct {
@@ -542,6 +694,7 @@ type seqCfg struct {
 	doc       string
 	states    bool
 	statuses  bool
+	hooks     bool // hook collection from the root is part of the history alphabet
 	trees     func(tier string) []*spec
 	length    func(tier string, leaves int) int
 	taskState func(tier string) []sm.State
@@ -626,6 +779,15 @@ func runSeq(c seqCfg, tier string, specs []*spec, shard, n int) *shardResult {
 				}
 			}
 		}
+		if c.hooks {
+			hasCall := false
+			for _, l := range t.leaves {
+				hasCall = hasCall || l.kind == kCall
+			}
+			if hasCall {
+				menu = append(menu, update{hooks: 1}, update{hooks: 2})
+			}
+		}
 		drainStates(t)
 		drainStatuses(t)
 		cls0 := fmt.Sprintf("leaves=%d depth=%d ", t.root.leaves, t.root.depth)
@@ -676,7 +838,9 @@ func runSeq(c seqCfg, tier string, specs []*spec, shard, n int) *shardResult {
 					v = "DISAGREES"
 				}
 				res.Evaluations++
-				if u.status {
+				if u.hooks != 0 {
+					res.Distinct[cls0+"hook-collection root-fold="+stName(refState(t.root))+" "+v]++
+				} else if u.status {
 					res.Distinct[cls0+"status-update root-fold="+refStatus(t.root).String()+" "+v]++
 				} else {
 					res.Distinct[cls0+"state-update root-fold="+stName(refState(t.root))+" "+v]++
@@ -922,6 +1086,11 @@ type schedCfg struct {
 }
 
 func parseUpd(leaf int, s string) update {
+	if s == "h:all" {
+		return update{hooks: 1}
+	} else if s == "h:trig" {
+		return update{hooks: 2}
+	}
 	if strings.HasPrefix(s, "t:") {
 		for _, v := range []task.Status{task.INACTIVE, task.ACTIVE, task.UNDEPLOYABLE} {
 			if v.String() == s[2:] {
@@ -978,7 +1147,7 @@ func schedScenario(c schedCfg) *vrt.Scenario {
 		for i := range plan {
 			us := plan[i]
 			for _, u := range us {
-				if !u.status && u.st == sm.ERROR && t.leaves[u.leaf].crit {
+				if u.hooks == 0 && !u.status && u.st == sm.ERROR && t.leaves[u.leaf].crit {
 					errFed = true
 				}
 			}
@@ -1015,6 +1184,16 @@ func schedScenario(c schedCfg) *vrt.Scenario {
 		lastT := "none"
 		if len(ht) > 0 {
 			lastT = ht[len(ht)-1].String()
+		}
+		// developer aid only (not part of the verdict; the assumptions say why the order of the hand-overs is not judged):
+		// C11_PROBE_ADAPTER=1 reports executions in which the last value handed to the ParentAdapter is not the final root value
+		if os.Getenv("C11_PROBE_ADAPTER") != "" {
+			if len(hs) > 0 && hs[len(hs)-1] != rootS {
+				vrt.Fail("PROBE:adapter-last-state-differs-from-root", "threads [%s]: adapter got %v, root %s", hist(), hs, stName(rootS))
+			}
+			if len(ht) > 0 && ht[len(ht)-1] != t.root.role.GetStatus() {
+				vrt.Fail("PROBE:adapter-last-status-differs-from-root", "threads [%s]: adapter got %v, root %s", hist(), ht, t.root.role.GetStatus())
+			}
 		}
 		// observation (not an oracle): whether the last value handed up is the final root value
 		vrt.Logf("threads [%s] -> root %s/%s fold %s/%s adapter-last %s/%s agree=%v", hist(), stName(rootS), t.root.role.GetStatus(), stName(refState(t.root)), refStatus(t.root), last, lastT, ok)
@@ -1090,6 +1269,15 @@ func main() {
 			doc:    "trees with <=3 leaves that contain an include or an iterator (real ProcessTemplates expansion): family A {taskC,taskN,callC} leaves, <=3 levels, inner roles with >=2 children; family B task leaves, <=2 levels, unary inner roles too; x state and status update sequences",
 			trees:  func(string) []*spec { return append(withSpecial(upTo(pathsA, 3)), withSpecial(upTo(pathsB, 3))...) },
 			length: lenBy(map[int]int{1: 2, 2: 2, 3: 2}, map[int]int{1: 3, 2: 3, 3: 3})}),
+		seqScenario(seqCfg{name: "members", states: true, statuses: true, hooks: true,
+			doc:   "member variants: `critical` left out (default true) on tasks and calls, hook tasks, members pruned by `enabled: false` (task, aggregator, aggregator emptied by pruning), iterators over 0/1/3 elements; x state and status update sequences in which the environment also collects hooks from the root (GetAllHooks / GetHooksMapForTrigger reset the call roles)",
+			trees: membersFamily,
+			length: func(tier string, leaves int) int {
+				if tier == "thorough" && leaves <= 3 {
+					return 3
+				}
+				return 2
+			}}),
 		schedScenario(schedCfg{name: "siblings-state", spec: A(A(tC, tC)), threads: []int{0, 1}, menus: [][]string{stateMenu, stateMenu},
 			q: vrt.Bounds{Dev: 2, Seconds: 100}, t: vrt.Bounds{Dev: 3, Seconds: 600}}),
 		schedScenario(schedCfg{name: "error-recovery", spec: A(A(tC, tC)), threads: []int{0, 1},
@@ -1104,6 +1292,10 @@ func main() {
 			q: vrt.Bounds{Dev: 1, Seconds: 100}, t: vrt.Bounds{Dev: 2, Seconds: 600}}),
 		schedScenario(schedCfg{name: "deep-iterator", spec: A(A(I(It(2, tC)))), threads: []int{0, 1}, menus: [][]string{stateMenu, stateMenu},
 			q: vrt.Bounds{Dev: 1, Seconds: 100}, t: vrt.Bounds{Dev: 2, Seconds: 600}}),
+		// the environment collects hooks (which resets the call role) while a task of the same aggregator reports
+		schedScenario(schedCfg{name: "hooks-vs-task", spec: A(A(tC, CD())), threads: []int{0, 1},
+			menus: [][]string{{"s:RUNNING", "s:ERROR", "s:ERROR s:RUNNING"}, {"s:ERROR h:trig", "h:all", "t:ACTIVE h:trig"}},
+			q:     vrt.Bounds{Dev: 2, Seconds: 100}, t: vrt.Bounds{Dev: 3, Seconds: 600}}),
 		schedScenario(schedCfg{name: "three-with-call", spec: A(A(tC, tC), cC), threads: []int{0, 1, 2}, menus: [][]string{{"s:RUNNING", "s:ERROR"}, {"s:RUNNING", "t:ACTIVE"}, callMenu},
 			q: vrt.Bounds{Dev: 1, Seconds: 100}, t: vrt.Bounds{Dev: 2, Seconds: 900}}),
 	})
